@@ -228,6 +228,42 @@ func CheckSafety(o *vrt.Obs, sc *Scenario, events []mem.Event) {
 	}
 }
 
+// CheckNilMeansDone is evaluated after a session on a faulty link (or with a storage error): a station whose Exchange
+// returned nil has told its caller that the session completed, and a caller that repeats sessions "until one completes"
+// stops there. Nothing of that station's outbox may then be in limbo: every message still pending must have been
+// reported deferred in THIS session (everything else was reported sent or rejected and is not pending any more).
+func CheckNilMeansDone(o *vrt.Obs, res Result, a, b *mem.Station, events []mem.Event, what string) {
+	last := -1
+	for _, e := range events {
+		last = max(last, e.Session)
+	}
+	for _, st := range []struct {
+		s   *mem.Station
+		err error
+	}{{a, res.A.Err}, {b, res.B.Err}} {
+		if st.err != nil {
+			continue
+		}
+		o.Count("exchange_returned_nil_on_a_faulty_session", 1)
+		deferred := map[string]bool{}
+		for _, e := range events {
+			if e.Session == last && e.Station == st.s.Name && e.Kind == mem.EvSetDeferred {
+				deferred[e.MID] = true
+			}
+		}
+		var limbo []string
+		for _, mid := range st.s.Pending() {
+			if !deferred[mid] {
+				limbo = append(limbo, mid)
+			}
+		}
+		if len(limbo) > 0 {
+			o.Violate("completed-with-unreported-messages", "%s: Exchange returned nil at station %s (\"session completed\") although its outbox still holds %v, reported neither sent nor deferred in this session - a caller that repeats sessions until one completes stops here with these messages undelivered",
+				what, st.s.Name, limbo)
+		}
+	}
+}
+
 // CheckConverged is evaluated after the first clean session that completed: every non-deferred
 // message delivered exactly once and reported sent exactly once, nothing pending.
 func CheckConverged(o *vrt.Obs, sc *Scenario, a, b *mem.Station, events []mem.Event) {
